@@ -114,8 +114,9 @@ const _: () = {
             (bytes.first() == Some(&b'/')).then_some(())
                 .ok_or_else(crate::Response::NotImplemented)?;
 
-            /* accessors of `Path` promise (percent-decoded) `str`s */
-            percent_decode_utf8(bytes).is_ok_and(|path| !path.contains('\0')).then_some(())
+            /* accessors of `Path` promise `str`s: the raw bytes (`Deref`, `AsRef<str>`) as well as the percent-decoded ones (`str()`) */
+            (std::str::from_utf8(bytes).is_ok()
+                && percent_decode_utf8(bytes).is_ok_and(|path| !path.contains('\0'))).then_some(())
                 .ok_or_else(crate::Response::BadRequest)?;
 
             /*
